@@ -60,7 +60,6 @@ def install(sim, fs=None):
     patch(dulprovider, 'time', tns)
     patch(asceprovider, 'time', tns)
     patch(dulprovider, 'queue', simnet.QueueNS(sim))
-    patch(dulprovider, 'threading', simnet.ThreadingNS(sim, _real_threading))
     sns = simnet.SocketNS(world.net)
     patch(fsm, 'socket', sns)
     # dulprovider.socket is only used for `socket.error` (== OSError): left alone on purpose,
@@ -91,6 +90,10 @@ def install(sim, fs=None):
     thread_cls = simnet.make_sim_thread_class(sim, on_start)
     tns_threads = simnet.ThreadingNS(sim, _real_threading, thread_cls)
     patch(socketserver, 'threading', tns_threads)
+    # (DULServiceProvider was derived from the real threading.Thread when the module was loaded;
+    # its start/is_alive/join are rebound above.  Anything else the module makes through its
+    # `threading` name - threads, timers, conditions - is a simulator object.)
+    patch(dulprovider, 'threading', tns_threads)
     for mod in (applicationentity, asceprovider, sopclass, fsm, pynetdicom2):
         if hasattr(mod, 'threading') and mod.threading is _real_threading:
             patch(mod, 'threading', tns_threads)
@@ -99,6 +102,50 @@ def install(sim, fs=None):
         if hasattr(mod, 'time') and getattr(mod.time, '__name__', '') == 'time' and \
                 mod is not asceprovider:
             patch(mod, 'time', tns)
+    # names a module may have bound directly (`from threading import Thread, Condition`, `from
+    # time import sleep`, ...): the same objects, found by identity in the module's globals
+    import queue as _real_queue
+    import select as _real_select
+    import time as _real_time
+    import socket as _real_socket
+    qns = simnet.QueueNS(sim)
+    sel = simnet.SelectNS(sim)
+    direct = [(_real_threading.Thread, thread_cls), (_real_threading.Event, tns_threads.Event),
+              (_real_threading.Lock, tns_threads.Lock), (_real_threading.RLock, tns_threads.RLock),
+              (_real_threading.Condition, tns_threads.Condition),
+              (_real_threading.Semaphore, tns_threads.Semaphore),
+              (_real_threading.BoundedSemaphore, tns_threads.BoundedSemaphore),
+              (_real_threading.Timer, tns_threads.Timer),
+              (_real_queue.Queue, qns.Queue),
+              (_real_time.time, tns.time), (_real_time.sleep, tns.sleep),
+              (_real_time.monotonic, tns.monotonic), (_real_time.perf_counter, tns.perf_counter),
+              (_real_select.select, sel.select)]
+    import sys as _sys
+    for mname in sorted(m for m in _sys.modules if m == 'pynetdicom2' or m.startswith('pynetdicom2.')):
+        mod = _sys.modules[mname]
+        if mod is None:
+            continue
+        for gname in sorted(vars(mod)):
+            val = vars(mod)[gname]
+            if val is _real_threading:
+                patch(mod, gname, tns_threads)
+                continue
+            if val is _real_queue:
+                patch(mod, gname, qns)
+                continue
+            if val is _real_time:
+                patch(mod, gname, tns)
+                continue
+            if val is _real_select:
+                patch(mod, gname, sel)
+                continue
+            if val is _real_socket:
+                patch(mod, gname, sns)
+                continue
+            for real_obj, sim_obj in direct:
+                if val is real_obj:
+                    patch(mod, gname, sim_obj)
+                    break
     if fs is not None:
         patch(applicationentity, 'tempfile', fs.tempfile_ns())
         patch(pynetdicom2, 'open', fs.open)
